@@ -146,7 +146,7 @@ func valueEqual(fd protoreflect.FieldDescriptor, a, b protoreflect.Value) bool {
 	return a.Interface() == b.Interface()
 }
 
-func c07Cases(e *c03Env) []c07Case {
+func c07Cases(e *c03Env, thorough bool) []c07Case {
 	var out []c07Case
 	for _, f := range c03PathFields(e.fields) {
 		vals := valuesOf(f)
@@ -160,7 +160,7 @@ func c07Cases(e *c03Env) []c07Case {
 		if len(safe) == 0 || len(vals) < 2 {
 			continue
 		}
-		if len(safe) > 2 {
+		if len(safe) > 2 && !thorough {
 			safe = safe[:2]
 		}
 		isNested := strings.HasPrefix(f.path, "nested.")
@@ -172,6 +172,27 @@ func c07Cases(e *c03Env) []c07Case {
 					continue
 				}
 				other := vals[(ci+1)%len(vals)]
+				spellings := cv.texts[:1]
+				if thorough {
+					spellings = cv.texts // every accepted spelling of the competing value
+				}
+				for _, ctext := range spellings {
+					cv := cv
+					cv.texts = []string{ctext}
+					c07Competitors(&out, f, p, cv, other, isNested)
+				}
+			}
+		}
+	}
+	return out
+}
+
+func c07Competitors(outp *[]c07Case, f fieldRef, p, cv, other textVal, isNested bool) {
+	out := *outp
+	defer func() { *outp = out }()
+	{
+		{
+			{
 				qs := [][]string{
 					{f.path + "=" + cv.texts[0]},
 					{f.json + "=" + cv.texts[0]},
@@ -206,18 +227,17 @@ func c07Cases(e *c03Env) []c07Case {
 			}
 		}
 	}
-	return out
 }
 
 func runC07(c *Ctx) {
 	r := c.Run
-	r.Rule("every path-bindable field of ComplexRequest (15 scalar kinds, enum, wrappers; top-level and nested) × rules {no body, body '*', body 'nested'} × 2 captured values × every other boundary value as competitor delivered through the query (proto name, JSON name, twice, mixed, among other keys, same value again), the body (JSON, protobuf, ± unrelated fields) and both; distinct = (field, rule, competitor channel) classes")
+	r.Rule("every path-bindable field of ComplexRequest (15 scalar kinds, enum, wrappers; top-level and nested) × rules {no body, body '*', body 'nested'} × 2 captured values (thorough: every path-safe value) × every other boundary value as competitor (thorough: in every accepted spelling) delivered through the query (proto name, JSON name, twice, mixed, among other keys, same value again), the body (JSON, protobuf, ± unrelated fields) and both; distinct = (field, rule, competitor channel) classes")
 	r.Assume("a request that is refused with an error (status >= 400, handler not invoked) also keeps the path value authoritative")
 	e0, err := newC03Env()
 	if err != nil {
 		panic(err)
 	}
-	cases := c07Cases(e0)
+	cases := c07Cases(e0, c.Thorough())
 	envs := make([]*c03Env, explore.Workers)
 	explore.ParallelFor(len(cases), func() bool { return r.TooManyViolations() }, func(w, i int) {
 		if envs[w] == nil {
